@@ -66,6 +66,14 @@ ssize_t h_getrandom(void *buf, size_t n, unsigned) {
     if (!g_kernel_mode) { AMB.hit("getrandom"); AMB.rng.fill(buf, n); return (ssize_t) n; }
     if (g_getrandom_enosys) { errno = ENOSYS; return -1; }
     if (g_kfault_pct && g_kfault.below(100) < g_kfault_pct) {
+        // rarely a count shorter than requested (a kernel/emulation that interrupts small requests): like a device
+        // failure, the acceptable reactions are terminating or a fully covered result
+        if (g_term_armed && n > 1 && g_kfault.below(25) == 0) {
+            size_t k = 1 + (size_t) g_kfault.below(n - 1);
+            g_kfaults_fired["getrandom_short"]++;
+            kernel_serve(buf, k);
+            return (ssize_t) k;
+        }
         bool eintr = g_kfault.chance(1, 2);
         g_kfaults_fired[eintr ? "getrandom_eintr" : "getrandom_eagain"]++;
         errno = eintr ? EINTR : EAGAIN;
@@ -349,7 +357,13 @@ struct Exec {
             r.fill(seed, 32);
             if (op.arg2 % 7 == 0) memset(seed, op.arg2 % 14 == 0 ? 0 : 0xff, 32);
             out.assign(op.arg, prefill);
-            randombytes_buf_deterministic(out.data(), op.arg, seed);
+            unsigned layout = (op.arg2 >> 8) % 8; // 0..4 disjoint; 5 seed at the head of the output, 6 at its tail, 7 in the middle
+            if (layout >= 5 && op.arg >= 32) {
+                size_t off = layout == 5 ? 0 : layout == 6 ? op.arg - 32 : (op.arg - 32) / 2;
+                memcpy(out.data() + off, seed, 32);
+                randombytes_buf_deterministic(out.data(), op.arg, out.data() + off); // in-place ratchet style use
+                res.count("probe.deterministic_seed_overlaps_output");
+            } else randombytes_buf_deterministic(out.data(), op.arg, seed);
             Bytes expect(op.arg);
             ref::chacha20_ietf_xor(expect.data(), nullptr, op.arg, seed, 0, (const unsigned char *) "LibsodiumDRG");
             if (out != expect) {
@@ -440,7 +454,7 @@ struct Exec {
         SeqResult base = run_seq(mix64(plan.content_seed, 1), 0xAA, -1, 0);
         for (auto &kv : g_kfaults_fired) res.count("fault." + kv.first, kv.second);
         bool faults_fired = !g_kfaults_fired.empty();
-        bool hard_fault_fired = g_kfaults_fired.count("read_eof") || g_kfaults_fired.count("read_eio");
+        bool hard_fault_fired = g_kfaults_fired.count("read_eof") || g_kfaults_fired.count("read_eio") || g_kfaults_fired.count("getrandom_short");
         g_kfaults_fired.clear();
         // per-execution validity + exact oracles on the base execution
         for (size_t i = 0; i < plan.ops.size() && !res.violated; i++) {
